@@ -156,12 +156,12 @@ crate::harnesses! {
     c20_m_empty_skip_until [6] = c20_m_empty_skip_until_body;
     c20_m_empty_skip_retry [6] = c20_m_empty_skip_retry_body;
     c20_m_empty_labelled [6] = c20_m_empty_labelled_body;
-    c20_m_empty_memoized [6] = c20_m_empty_memoized_body;
+    c20_m_empty_memoized [8] = c20_m_empty_memoized_body;
     c20_m_empty_repeated [6] = c20_m_empty_repeated_body;
     c20_m_cheap_map_err [6] = c20_m_cheap_map_err_body;
     c20_m_cheap_via [6] = c20_m_cheap_via_body;
     c20_m_cheap_skip_retry [6] = c20_m_cheap_skip_retry_body;
-    c20_m_cheap_memoized [6] = c20_m_cheap_memoized_body;
+    c20_m_cheap_memoized [8] = c20_m_cheap_memoized_body;
     c20_str_arbitrary [6] = c20_str_arbitrary_body;
     c20_text_bytes [6] = c20_text_bytes_body;
 }
